@@ -29,12 +29,12 @@ def bin_type(op, ta, tb):
         return 'I'
     if op in ('and', 'or', 'xor', 'eqv', 'imp', 'mod', 'idiv'):
         return 'I' if ta == 'I' and tb == 'I' else 'L'
-    if op == 'div':
+    if op in ('div', 'pow'):
         return 'D' if wider(ta, tb) == 'D' else 'S'
     return wider(ta, tb)
 
 
-OPTXT = {'add': '+', 'sub': '-', 'mul': '*', 'div': '/', 'idiv': '\\', 'mod': 'MOD', 'eq': '=', 'ne': '<>',
+OPTXT = {'add': '+', 'sub': '-', 'mul': '*', 'div': '/', 'pow': '^', 'idiv': '\\', 'mod': 'MOD', 'eq': '=', 'ne': '<>',
          'lt': '<', 'gt': '>', 'le': '<=', 'ge': '>=', 'and': 'AND', 'or': 'OR', 'xor': 'XOR', 'eqv': 'EQV',
          'imp': 'IMP'}
 # binding strength for minimal-but-safe parenthesisation (we parenthesise every nested binary operand)
@@ -60,6 +60,7 @@ class Gen:
         self.size = size
         self.maxdepth = depth
         self.feat = features or {}
+        self.features_pow = self.feat.get('pow', True)
         self.label_n = 0
         self.procs = []
         self.shared = []
@@ -237,6 +238,14 @@ class Gen:
             if t in 'IL' and self.chance(0.4):
                 return {'k': 'un', 'o': 'not', 'a': self.paren(a, unary=True)}
             return {'k': 'un', 'o': 'neg', 'a': self.paren(a, unary=True)}
+        if choice < 0.8 and t in 'SD' and self.features_pow and self.chance(0.5):
+            # a power with a small integral exponent; the base is always parenthesised (-3 ^ 2 is -(3 ^ 2))
+            bt = self.pick(['I', t] if t == 'S' else ['D', 'D', 'I'])
+            base = self.num_expr(sc, bt, depth + 1)
+            ex = {'k': 'num', 't': 'I', 'v': self.pick([2, 3, 2, 0, 1, -1, -2, 4])}
+            if ex['v'] < 0 and self.chance(0.5):
+                ex = {'k': 'par', 'a': ex}
+            return {'k': 'bin', 'o': 'pow', 'l': {'k': 'par', 'a': base}, 'r': ex}
         if choice < 0.8 and t in 'SD' and self.chance(0.5):
             # exact division: by a power of two
             l = self.num_expr(sc, t, depth + 1)
